@@ -2,7 +2,7 @@
 from bounded import harness, graphchecks
 from bounded.corpus import corpus, bound_text
 
-FAMILIES = ['sel', 'inc', 'forced']
+FAMILIES = ['sel', 'inc', 'forced', 'mix']
 
 
 def member(desc, tier, seed):
@@ -10,7 +10,7 @@ def member(desc, tier, seed):
 
 
 def run(tier='quick', seed=0):
-    members = corpus(FAMILIES, tier)
+    members = [d for d in corpus(FAMILIES, tier) if not d.conn_choices]   # selection-only walks: connector feasibility is C11's
     results = harness.run_pool('bounded.drivers.C02', 'member', members, tier, seed)
     return harness.aggregate(
         results,
